@@ -189,6 +189,10 @@ func run(s Script, v *vt.V) {
 				var we struct {
 					Errors []struct{ Code string } `json:"errors"`
 				}
+				if ct := resp.Header.Values("Content-Type"); resp.StatusCode == 403 && (len(ct) != 1 || !strings.HasPrefix(ct[0], "application/json")) {
+					v.Failf("401-after-fresh-token", "%s: the 403 that stands for the refused fresh token carries Content-Type %q; its body is a JSON error document and must be declared as such (the registry's 401 said %q)", desc, ct, h.ErrContentType)
+					return
+				}
 				if resp.StatusCode != 403 || json.Unmarshal(respBody, &we) != nil || len(we.Errors) == 0 || we.Errors[0].Code != "DENIED" {
 					v.Failf("401-after-fresh-token", "%s: the registry answered 401 to a freshly issued token; the caller got status %d body %.100q, want 403 DENIED", desc, resp.StatusCode, respBody)
 					return
@@ -327,6 +331,7 @@ func genScript(t *rapid.T) Script {
 		if rapid.IntRange(0, 3).Draw(t, "neverAccept") == 0 {
 			h.Accept = "never"
 		}
+		h.ErrContentType = rapid.SampledFrom([]string{"", "", "application/json", "text/plain; charset=utf-8", "text/html"}).Draw(t, "errContentType")
 		h.Retry401 = rapid.SampledFrom([]string{"", "", "", "nohdr", "negotiate", "malformed"}).Draw(t, "retry401")
 		s.Hosts = append(s.Hosts, h)
 	}
@@ -347,7 +352,7 @@ func genScript(t *rapid.T) Script {
 var prop = &vt.Prop[Script]{
 	ID:   "C11",
 	Name: "CredentialConfinement",
-	Rule: "2-3 registry hosts (two of them differing only in port) with distinct unique secrets and credential kinds {none, basic, refresh, refresh+basic, static token, failing config lookup}; token realms on separate hosts or on another registry's host; challenges {Bearer exact / no scope / unrelated scope, Basic, both, raw headers of every RFC 7235 shape: case variants, token and quoted values with escapes, missing '=', unterminated quotes, empty, 8-bit, unknown schemes (Negotiate, NTLM, Digest, Custom), several challenges in one line, realm naming another registry, malformed realm URL, very long scope}; token servers that fail with statuses 300-599 or redirect (301/302/307/308) to a host nobody named or to another port of the realm's host, return malformed / empty JSON, omit the token, lack the POST endpoint, refuse over-wide scopes; registries that answer 401 to every token, with the usual challenge or - when a token was presented - with no, an unsupported or an unparsable Www-Authenticate header; 1-8 requests with no body, a plain body and a rewindable body; in a synctest bubble over the in-memory world; oracle: every secret is searched (also base64- and URL-decoded) in every outgoing request: a password only to a realm host its own registry named, or as Basic to its own registry after that registry issued a Basic challenge; a refresh token only to such realms; access tokens only to their own registry; at most 2 registry requests (and 8 token requests) per call; a 401 answered to a token minted in this call (on the retry, or on a first attempt made with a token acquired up front) reaches the caller as 403 DENIED; the caller's request (method, URL, headers, ContentLength, Body, GetBody) is unchanged; every body (incl. those from GetBody) is closed on every path; a failing config lookup sends nothing; no panic; non-trivial = a challenge was seen and a credential was sent; distinct = the script",
+	Rule: "2-3 registry hosts (two of them differing only in port) with distinct unique secrets and credential kinds {none, basic, refresh, refresh+basic, static token, failing config lookup}; token realms on separate hosts or on another registry's host; challenges {Bearer exact / no scope / unrelated scope, Basic, both, raw headers of every RFC 7235 shape: case variants, token and quoted values with escapes, missing '=', unterminated quotes, empty, 8-bit, unknown schemes (Negotiate, NTLM, Digest, Custom), several challenges in one line, realm naming another registry, malformed realm URL, very long scope}; token servers that fail with statuses 300-599 or redirect (301/302/307/308) to a host nobody named or to another port of the realm's host, return malformed / empty JSON, omit the token, lack the POST endpoint, refuse over-wide scopes; registries that answer 401 to every token, with the usual challenge or - when a token was presented - with no, an unsupported or an unparsable Www-Authenticate header; 1-8 requests with no body, a plain body and a rewindable body; in a synctest bubble over the in-memory world; oracle: every secret is searched (also base64- and URL-decoded) in every outgoing request: a password only to a realm host its own registry named, or as Basic to its own registry after that registry issued a Basic challenge; a refresh token only to such realms; access tokens only to their own registry; at most 2 registry requests (and 8 token requests) per call; a 401 answered to a token minted in this call (on the retry, or on a first attempt made with a token acquired up front) reaches the caller as 403 DENIED (a JSON error document declared as application/json, whatever content type the registry's 401 had); the caller's request (method, URL, headers, ContentLength, Body, GetBody) is unchanged; every body (incl. those from GetBody) is closed on every path; a failing config lookup sends nothing; no panic; non-trivial = a challenge was seen and a credential was sent; distinct = the script",
 	Gen:  genScript,
 	Run:  run,
 }
